@@ -243,6 +243,7 @@ type world struct {
 	interval   time.Duration
 	// float64 instead of int64 variants of the up-down counter, explicit histogram, gauge, observable up-down counter + gauge
 	fUpDown, fHist, fGauge, fObs bool
+	lazy                         bool // no instrument is created before the tasks start (and no observable ones at all)
 }
 
 type regEv struct {
@@ -488,6 +489,7 @@ func (engine) Body(r *simdrv.Run) {
 		w.insts = append(w.insts, in)
 	}
 	w.fUpDown, w.fHist, w.fGauge, w.fObs = r.Cfg(2) == 1, r.Cfg(2) == 1, r.Cfg(2) == 1, r.Cfg(2) == 1
+	w.lazy = r.Cfg(4) == 0
 	r.Res.Config["float-variants"] = fmt.Sprintf("updown=%v hist=%v gauge=%v obs=%v", w.fUpDown, w.fHist, w.fGauge, w.fObs)
 	syncInsts := []int{0, 1, 2, 3, 4, 5, 5, 11}
 	if r.Cfg(2) == 1 {
@@ -568,6 +570,10 @@ func (engine) Body(r *simdrv.Run) {
 			regPlan = append(regPlan, regOp{inst: 6 + r.Cfg(3), on: r.Cfg(2) == 1, sleep: times[r.Cfg(len(times))]})
 		}
 	}
+	if w.lazy {
+		regPlan = nil
+	}
+	r.Res.Config["lazy_instruments"] = w.lazy
 	r.Res.Config["exp_hist"] = fmt.Sprintf("max_size=%d max_scale=%d", expMaxSize, expMaxScale)
 	r.Res.Config["limit"] = w.limit
 	r.Res.Config["view_mode"] = viewMode
@@ -665,8 +671,16 @@ func (engine) Body(r *simdrv.Run) {
 		sdkmetric.Stream{Aggregation: sdkmetric.AggregationBase2ExponentialHistogram{MaxSize: expMaxSize, MaxScale: expMaxScale}})))
 	mp := sdkmetric.NewMeterProvider(opts...)
 	meter := mp.Meter("metricsim")
-	ci, _ := meter.Int64Counter("counter_i")
-	cf, _ := meter.Float64Counter("counter_f")
+	// Lazy runs create nothing up front: every recorder requests each instrument when it needs it, so that the
+	// first instruments of the still empty pipelines are created concurrently, through different inserters
+	// (after seeded change C02-k: a double-checked initialisation of pipeline.aggregations outside the lock).
+	// They have no observable instruments.
+	var ci metric.Int64Counter
+	var cf metric.Float64Counter
+	if !w.lazy {
+		ci, _ = meter.Int64Counter("counter_i")
+		cf, _ = meter.Float64Counter("counter_f")
+	}
 	// The up-down counter, the explicit-bucket histogram, the gauge and the two observable kinds whose callbacks
 	// are registered at run time are int64 or float64 instruments, drawn per run and per instrument (same names,
 	// same integral values): the float64 entry points of the meter, of the instruments and of the observer are
@@ -677,27 +691,38 @@ func (engine) Body(r *simdrv.Run) {
 	var hf metric.Float64Histogram
 	var gi metric.Int64Gauge
 	var gf metric.Float64Gauge
-	if w.fUpDown {
+	var hj metric.Int64Histogram
+	if w.lazy {
+	} else if w.fUpDown {
 		uf, _ = meter.Float64UpDownCounter("updown_i")
 	} else {
 		ui, _ = meter.Int64UpDownCounter("updown_i")
 	}
-	if w.fHist {
+	if w.lazy {
+	} else if w.fHist {
 		hf, _ = meter.Float64Histogram("hist_i", metric.WithExplicitBucketBoundaries(w.bounds...))
 	} else {
 		hi, _ = meter.Int64Histogram("hist_i", metric.WithExplicitBucketBoundaries(w.bounds...))
 	}
-	hj, _ := meter.Int64Histogram("lat_j", metric.WithExplicitBucketBoundaries(w.bounds...))
-	if w.fGauge {
+	if !w.lazy {
+		hj, _ = meter.Int64Histogram("lat_j", metric.WithExplicitBucketBoundaries(w.bounds...))
+	}
+	if w.lazy {
+	} else if w.fGauge {
 		gf, _ = meter.Float64Gauge("gauge_i")
 	} else {
 		gi, _ = meter.Int64Gauge("gauge_i")
 	}
-	he, _ := meter.Float64Histogram("hist_exp")
-	oc, _ := meter.Int64ObservableCounter("obs_counter")
-	obsInst := map[int]metric.Int64Observable{6: oc}
+	var he metric.Float64Histogram
+	obsInst := map[int]metric.Int64Observable{}
 	obsInstF := map[int]metric.Float64Observable{}
-	if w.fObs {
+	if !w.lazy {
+		he, _ = meter.Float64Histogram("hist_exp")
+		oc, _ := meter.Int64ObservableCounter("obs_counter")
+		obsInst[6] = oc
+	}
+	if w.lazy {
+	} else if w.fObs {
 		ouf, _ := meter.Float64ObservableUpDownCounter("obs_updown")
 		ogf, _ := meter.Float64ObservableGauge("obs_gauge")
 		obsInstF[7], obsInstF[8] = ouf, ogf
@@ -714,7 +739,7 @@ func (engine) Body(r *simdrv.Run) {
 	}
 	// the float64 observable counter gets its callback at creation: always registered, routed per reader
 	ocf := w.insts[9]
-	_, _ = meter.Float64ObservableCounter("obs_counter_f", metric.WithFloat64Callback(func(_ context.Context, o metric.Float64Observer) error {
+	ocfCallback := metric.WithFloat64Callback(func(_ context.Context, o metric.Float64Observer) error {
 		task := sim.CurrentTask()
 		c := w.curColl[task]
 		if c == nil {
@@ -734,7 +759,10 @@ func (engine) Body(r *simdrv.Run) {
 			}
 		}
 		return nil
-	}))
+	})
+	if !w.lazy {
+		_, _ = meter.Float64ObservableCounter("obs_counter_f", ocfCallback)
+	}
 	regHandles := map[int]metric.Registration{}
 
 	// one callback per async instrument; it records what it observes into the collecting task's record
@@ -774,7 +802,7 @@ func (engine) Body(r *simdrv.Run) {
 	}
 	// initial registrations (drawn), done before the tasks start
 	for idx := 6; idx <= 8; idx++ {
-		if r.Cfg(3) != 0 {
+		if r.Cfg(3) != 0 && !w.lazy {
 			register(idx)
 			w.regs[idx] = true
 			w.regHist = append(w.regHist, regEv{inst: idx, on: true, inv: 0, ret: 0})
@@ -788,7 +816,7 @@ func (engine) Body(r *simdrv.Run) {
 		// One measurement in eight goes through an instrument object requested again just now (same name,
 		// kind, unit and options: the SDK must hand back an instrument feeding the same aggregators), so
 		// that instrument creation also runs concurrently with measurements, collections and itself.
-		again := sim.Draw(8) == 0
+		again := sim.Draw(8) == 0 || w.lazy
 		if again {
 			r.Fault("instrument-requested-again")
 		}
